@@ -27,6 +27,67 @@ CLAIMS = {
    text="Theorems: for all 256 flag bytes the code's mask tests are bits 0,2,3,4,6,7 (finite sweep by vm_compute, lifted; bound in the statement); reserved bits 1,5 never influence a flag; acceptance implies UP, UV-if-required, not(BS without BE) and the reported fields equal the bits. Correspondence: all 256 x policies x both ceremonies, really signed (exhaustive).",
    note="Finite-domain theorems carry their bound (0<=f<256) in the statement.",
    technique="Coq proof (finite sweep lifted by forallb_forall; inversion) + exhaustive differential check", ref="3/C10"),
+
+ "C02": dict(
+   text="Theorems (arbitrary oracles): verify_reg accepted implies every RP expectation of the property (id=b64url(rawId), type, webauthn.create, challenge, origin, rpIdHash, UP unless waived, UV if required, attested data with non-empty id, key alg in the allowed list, one of seven formats, no known statement member for 'none'). Correspondence: 8 statement kinds x ceremony-level fault catalogue with the statement regenerated to stay valid, pairs, three input forms.",
+   note="'empty statement for none' = none of the seven statement members the library knows is set. cbor2 is modelled on a subset; X.509/OpenSSL are oracles.",
+   technique="Coq proof (error-monad inversion over the registration model) + differential fault catalogue with forged attestations", ref="3/C02"),
+ "C03": dict(
+   text="Per-format soundness theorems (arbitrary oracles): an accepted packed / fido-u2f / tpm / apple / android-key / android-safetynet statement satisfies the declared rules of that format, stated over the abstract certificate record and the TPM structure decoders. Correspondence: ~100-entry per-step catalogue with forged PKIs, TPM structures, KeyDescription and JWS, all TPM name algorithms, attestation key algorithms.",
+   note="Certificate/KeyDescription contents reach the model through an abstract record produced by the harness's own DER reading; DER parsing is not verified. Three genuine defects found by this check were fixed in /repo (see known_findings.json).",
+   technique="Coq proof (inversion per format verifier) + differential per-step fault catalogue", ref="3/C03"),
+ "C04": dict(
+   text="Theorems: which anchors are handed to chain validation per format (RP roots for that format ++ built-ins), roots of other formats are never consulted, accepted x5c registrations with anchors in force went through the validator, pass-through only with no anchors. OpenSSL path validation is an oracle validated differentially (chain shapes x root configurations x chain faults, clock replays).",
+   note="PARTIAL: OpenSSL's path builder is an oracle; its agreement with the abstract valid-path spec is tested on generated shapes, not proved.",
+   technique="Coq proof (anchor-selection/isolation lemmas) + differential forged-PKI check", ref="3/C04"),
+ "C05": dict(
+   text="Fidelity theorems (arbitrary oracles): returned fields equal what the authenticator data says (id, key bytes, counter, UUID text, fmt, UV, BE, BS, raw attestation object); table obligations on regenerated constants (default algorithms mapped, every TCG registry vendor id present). Correspondence: seeded sampling of the full product incl. every vendor id; all returned fields compared.",
+   note="Completeness ('every conformant ceremony is accepted') is proved for authentication (iff characterisation) and evaluated by sampling for registration formats.",
+   technique="Coq proof (inversion + table obligations by vm_compute) + differential product sampling", ref="3/C05"),
+ "C06": dict(
+   text="Theorem (under explicit hypotheses sig_binds_msg / sha256 collision-freeness as premises): any change of authenticatorData, clientDataJSON or signature of an accepted assertion is rejected - the proof content is that the whole raw bytes reach the verifier. Exhaustive bit-flip evaluation over every position for authentication and signed registration formats.",
+   note="PARTIAL: non-malleability of the signature schemes is a premise and is tested, not proved. Known finding: fido-u2f signature base does not cover flags/counter (spec-inherent).",
+   technique="Coq proof under stated crypto premises + exhaustive bit-flip fault enumeration", ref="3/C06"),
+ "C08": dict(
+   text="Theorems: canonical COSE key bytes survive parse/re-encode unchanged for ALL well-formed CBOR values (nested induction, no bound); registration returns those bytes; chain/cross statements under oracle hypotheses. Correspondence: register->authenticate chains for every format x algorithm, ordered cross-credential pairs.",
+   note="Key-separation between distinct credentials is a cryptographic premise (tested).",
+   technique="Coq proof (CBOR round-trip by nested induction) + differential ceremony chains", ref="3/C08"),
+ "C11": dict(
+   text="Theorems: canonical CBOR of any well-formed value decodes to exactly that value and rest (unbounded nesting); header fields exact; attested data iff AT, extensions iff ED; every byte string yields a complete record or one of two library exceptions; short input rejected. Correspondence: structured layouts, EVERY truncation point and 1-8 byte suffixes, arbitrary bytes, CBOR-aware mutations, cbor2 vs model decoder/encoder directly.",
+   note="cbor2 is modelled on a subset (floats/tags/simple values/indefinite lengths answer Unmodelled).",
+   technique="Coq proof (nested induction over CBOR values, lia) + differential exhaustive truncation check", ref="3/C11"),
+ "C12": dict(
+   text="Theorems: TPMS_ATTEST / TPMT_PUBLIC decoders return exactly the encoded fields for laid-out structures; non-certify types rejected; identifier tables (regenerated) equal the TCG tables and are injective. Correspondence: all tags, algorithm and curve ids, attribute bits, length classes; every decoded field compared.",
+   note="Tables come from Generated/Constants.v (regenerated every run).",
+   technique="Coq proof (table obligations by vm_compute, decoder lemmas) + differential structured generator", ref="3/C12"),
+ "C13": dict(
+   text="Theorems for EVERY JSON value (any depth): credential parsers return a record or InvalidJSONStructure / the response exception; well-formed credentials over arbitrary bytes (any padding, unknown members) decode exactly; text = dict form; enum tables equal the spec's. Correspondence: member-wise generator, mutation stream, client data variants.",
+   note="json.loads is an oracle (its value is what the theorems quantify over). One genuine defect fixed in /repo.",
+   technique="Coq proof (structural case analysis over JSON, base64 round trip) + differential member-wise generator", ref="3/C13"),
+ "C15": dict(
+   text="Theorems: every supplied field passes through unchanged, residentKey=required implies requireResidentKey, empty rp id/name/user name refused, the i-th defaulted value of any history is the i-th 64-byte draw of the OS source and nothing else is read, default algorithms offered = accepted (regenerated constants). Correspondence on a recorded entropy tape incl. random.seed() reseeding; real-source distinctness/balance test.",
+   note="PARTIAL: unpredictability of os.urandom is trusted; the balance/distinctness run is a test.",
+   technique="Coq proof (induction over call histories) + differential recorded-entropy-tape check", ref="3/C15"),
+ "C16": dict(
+   text="Theorems: generated options serialise to a JSON value satisfying the wire-schema predicate; parse(to_json o) = normalise o; missing/ill-typed required scalars and unknown enum values are refused with InvalidJSONStructure. Correspondence: real options_to_json text, both parsers, text and dict, systematic deletions/type changes/unknown enums.",
+   note="json.dumps/json.loads composed = identity on the JSON value is a premise for the text form (exercised through the real text).",
+   technique="Coq proof (schema predicate, round trip via base64 theorem) + differential wire-format check", ref="3/C16"),
+ "C17": dict(
+   text="Theorems (lia, clock in ms with truncation written into the statement): SafetyNet timestamp accepted iff within [now*1000-10000, now*1000+10000]; hence accepted only within (T-11000, T+10000] and always within [T-10000, T+9000]; chain validation is handed the clock of the current call. Correspondence: ms-dense boundaries, second-dense certificate windows for leaf/intermediate/root, moving-clock histories, real-clock run (thorough).",
+   note="PARTIAL: OpenSSL's reading of the clock is an oracle (tested).",
+   technique="Coq proof (linear arithmetic over Z) + differential controlled-clock check", ref="3/C17"),
+ "C18": dict(
+   text="Theorems over an explicit heap model of list aliasing: the root list handed to format verifiers is a fresh object (caller's mapping and lists unchanged), default parameter lists are built per call; for every history each outcome equals the pure function of its arguments. Correspondence: random histories with in-place mutation of earlier results, deep comparison of arguments, 16-thread run.",
+   note="PARTIAL: interleavings inside C extensions are not modelled; the thread run is a test. One genuine defect fixed in /repo.",
+   technique="Coq proof (invariant by induction over operation histories on a heap model) + differential histories", ref="3/C18"),
+ "C19": dict(
+   text="Theorems: every exported exception class derives from the base (finite obligation over the reflective export); every guard of both verifiers and all format verifiers raises a library class on well-formed inputs; parsers total (C11/C13 totals). Correspondence/direct evaluation: every catalogue fault and pairs, malformed signatures, arbitrary inputs into the named parsers.",
+   note="'Well-formed' excludes inputs on which third-party libraries raise their own errors (unparseable certificates, keys not on the curve). One genuine defect fixed in /repo.",
+   technique="Coq proof (finite table obligation + inversion) + fault-catalogue exception-class evaluation", ref="3/C19"),
+ "C20": dict(
+   text="Theorems (all inputs, all oracles): accepted under P implies accepted with the same result under every looser P' (UV not required, origin string -> list -> superset, algorithms superset, UP waived); text = dict = record forms. Correspondence: catalogue responses x ordered policy pairs x forms incl. bytes subclasses and memoryviews, same dict re-verified.",
+   note="PARTIAL: Python buffer-protocol behaviour is only tested.",
+   technique="Coq proof (monotonicity via iff characterisation) + differential policy-pair check", ref="3/C20"),
 }
 REASON_TODO = "check not built yet in this revision (planned: Coq model + correspondence, see DESIGN.md section 3)"
 def main():
